@@ -98,6 +98,26 @@ def run_verus_units(prop, spec, snap, workdir, tier, seed):
                         unstable.append(fn)
                 res['smt_ms'] += r['smt_ms']
                 res['wall_s'] += r['wall_s']
+        # a resource-limit hit is not a verdict: retry once with a 10x budget, then undecided
+        def _rlimited(rr):
+            out = []
+            for fn in mine:
+                f = rr['functions'].get(fn)
+                if f is not None and not f['success']:
+                    errs = [e for e in rr['errors'] if e.get('function') == fn]
+                    if errs and all(('rlimit' in e['message'] or 'Resource limit' in e['message']) for e in errs):
+                        out.append(fn)
+            return out
+        rl = _rlimited(res)
+        if rl:
+            r2 = vunit.run_verus(asm, os.path.join(workdir, 'verus'), rlimit=100,
+                                 timeout=(3600 if tier == 'thorough' else 1200))
+            r2['wall_s'] += res['wall_s']
+            r2['smt_ms'] += res['smt_ms']
+            res = r2
+            for fn in _rlimited(res):
+                undecided.append('unit %s: %s hits the solver resource limit even at rlimit 100 - undecided' % (uname, fn))
+                res['functions'][fn]['rlimit_only'] = True
         info = dict(unit=uname, cmd=res['cmd'], wall_s=res['wall_s'], smt_ms=res['smt_ms'], rc=res['rc'],
                     verified=res.get('verified'), errors=res.get('n_errors'),
                     sha_unit=vunit.sha(asm.text),
@@ -136,7 +156,7 @@ def run_verus_units(prop, spec, snap, workdir, tier, seed):
                 ob['status'] = 'missing'
                 undecided.append('unit %s: obligation %s produced no verification condition' % (uname, fn))
             else:
-                ob['status'] = 'discharged' if f['success'] else 'failed'
+                ob['status'] = 'discharged' if f['success'] else ('undecided' if f.get('rlimit_only') else 'failed')
                 ob['time_s'] = round(f['time_us'] / 1e6, 3)
                 if not f['success']:
                     ob['failures'] = [e for e in res['errors'] if e.get('function') == fn]
@@ -307,8 +327,9 @@ def kani_playback(h, snap, workdir):
     tn = re.search(r'fn\s+(kani_concrete_playback_\w+)', test)
     if not tn:
         return res
-    cmd = ['cargo', 'kani', 'playback', '-Z', 'concrete-playback', '--target-dir', KANI_TARGET] + \
+    cmd = ['cargo', 'kani', 'playback', '-Z', 'concrete-playback'] + \
         list(h.get('cargo_args', ())) + ['--', tn.group(1)]
+    env['CARGO_TARGET_DIR'] = os.path.join(VERIF, '.cache', 'playback-target')
     try:
         p = subprocess.run(cmd, cwd=snap, env=env, capture_output=True, text=True, timeout=1500)
         res['native_cmd'] = ' '.join(cmd)
@@ -374,7 +395,10 @@ def decide(prop, spec, tier, seed, workdir, t0, args):
     snap = snapshot(workdir)
     undecided = []
     v_obs, v_info, u1 = run_verus_units(prop, spec, snap, workdir, tier, seed)
-    k_obs, k_info, u2 = run_kani(prop, spec, snap, workdir, tier)
+    if os.environ.get('VERIF_ONLY') == 'verus':  # development aid only; never used by MANIFEST commands
+        k_obs, k_info, u2 = [], [], []
+    else:
+        k_obs, k_info, u2 = run_kani(prop, spec, snap, workdir, tier)
     undecided += u1 + u2
     obs = v_obs + k_obs
     # baseline
@@ -407,13 +431,13 @@ def decide(prop, spec, tier, seed, workdir, t0, args):
     # obligations expected by the baseline but absent now -> undecided
     names = set(o['name'] for o in obs)
     for b in base:
-        if b not in names:
+        if b not in names and not os.environ.get('VERIF_ONLY'):
             undecided.append('baseline obligation %s was not generated by this run' % b)
     # ---- replay files
     vio_lines = []
     if violations:
         import registry
-        rdir = os.path.join(VERIF, 'replays', prop)
+        rdir = os.path.join(VERIF, 'replays', prop) if not os.environ.get('VERIF_NO_EVIDENCE') else os.path.join(workdir, 'replays')
         os.makedirs(rdir, exist_ok=True)
         for o, fails in violations:
             rp = os.path.join(rdir, re.sub(r'[^A-Za-z0-9_.-]', '_', o['name']) + '.json')
@@ -473,8 +497,9 @@ def decide(prop, spec, tier, seed, workdir, t0, args):
         wall_s=round(wall, 2),
         violations=len(violations),
     )
-    os.makedirs(os.path.join(VERIF, 'evidence'), exist_ok=True)
-    json.dump(ev, open(os.path.join(VERIF, 'evidence', prop + '.json'), 'w'), indent=1)
+    if not os.environ.get('VERIF_NO_EVIDENCE'):
+        os.makedirs(os.path.join(VERIF, 'evidence'), exist_ok=True)
+        json.dump(ev, open(os.path.join(VERIF, 'evidence', prop + '.json'), 'w'), indent=1)
     # ---- verdict
     seen = set()
     for o, f, fd in known_hits:
